@@ -10,6 +10,7 @@ import json
 import threading
 
 import yaml
+import kazoo.exceptions
 import time as _realtime
 from unittest import mock
 
@@ -355,6 +356,17 @@ class World:
     def ev_ClearBlackout(self, s):
         zkutils.ensure_deleted(self.admin, z.path.blackedout_server(s))
 
+    def ev_EmptyServer(self, s):
+        """The first half of masterapi.create_server (the node exists, nothing written
+        into it yet) after a delete: what a master reads if it looks in between."""
+        masterapi.delete_server(self.admin, s)
+        zkutils.ensure_exists(self.admin, z.path.server(s))
+        if self._lagging():
+            self.untracked.add(s)
+        else:
+            self.spells.pop(s, None)
+        self.obs_frozen.discard(s)
+
     def ev_SetCapacity(self, s, idx):
         """An administrator rewrites the server's capacity (masterapi.update_server_capacity:
         a `servers` event), whether the node is up or not."""
@@ -664,6 +676,21 @@ class World:
         finally:
             self.store.fail_at = None
 
+    def ev_FaultCycle(self, k):
+        """reschedule() meets a storage error (an ordinary exception, e.g. a lost
+        connection) at its k-th write: the master process ends on it."""
+        self.store.fail_at = self.store.writes + k
+        self.store.fail_exc = kazoo.exceptions.ConnectionLoss
+        try:
+            self.master.reschedule()
+            self.crashed = False
+        except (zkfake.InjectedCrash, kazoo.exceptions.ConnectionLoss):
+            self.crashed = True
+            self.master = None
+        finally:
+            self.store.fail_at = None
+            self.store.fail_exc = None
+
     def ev_CrashRestart(self, k):
         """a starting master dies at the k-th storage write of start-up."""
         self.store.fail_at = self.store.writes + k
@@ -726,18 +753,18 @@ class World:
         self.died = False
         self.noop = False
         self.order = []
-        if self.master is None and ev in ('Cycle', 'StaleCycle', 'CrashCycle', 'StaleCrashCycle',
+        if self.master is None and ev in ('Cycle', 'StaleCycle', 'CrashCycle', 'StaleCrashCycle', 'FaultCycle',
                                           'Integrity', 'Kill'):
             self.noop = True        # the master is down (it failed its own check): nothing runs
             self.crashed = False
             return
-        if ev in ('Cycle', 'CrashCycle', 'Integrity') and getattr(self, 'deferred', False):
+        if ev in ('Cycle', 'CrashCycle', 'FaultCycle', 'Integrity') and getattr(self, 'deferred', False):
             self.deferred = False
             self.deliver()      # the loop drains its queue before it schedules
             self._retrack()
         getattr(self, 'ev_' + ev)(*args)
         if ev not in ('Cycle', 'Restart', 'CrashCycle', 'CrashRestart', 'Tick', 'Integrity', 'Defer', 'Deliver', 'StaleCycle',
-                      'StaleCrashCycle', 'Kill', 'DeliverPath'):
+                      'StaleCrashCycle', 'Kill', 'DeliverPath', 'FaultCycle'):
             self.deliver()
 
     # -- projections ---------------------------------------------------------
@@ -969,7 +996,7 @@ def replay(scn, history):
                     line['queues'] = w.init_queues
                     line['placement'] = [[w.aname(n), b or '', rels(eb), a or '', rels(ea)]
                                          for n, b, eb, a, ea in w.init_placement]
-            if ev in ('CrashCycle', 'CrashRestart', 'StaleCrashCycle'):
+            if ev in ('CrashCycle', 'CrashRestart', 'StaleCrashCycle', 'FaultCycle'):
                 line['crashed'] = bool(getattr(w, 'crashed', False))
             if getattr(w, 'die_after_line', False):
                 line['integrity_failed'] = True
@@ -981,7 +1008,7 @@ def replay(scn, history):
             if ev != 'Cycle' and probe is None:
                 quiet = False
             lines.append(line)
-            if w.master is None and ev not in ('CrashCycle', 'CrashRestart', 'StaleCrashCycle') and 'exc' in line:
+            if w.master is None and ev not in ('CrashCycle', 'CrashRestart', 'StaleCrashCycle', 'FaultCycle') and 'exc' in line:
                 break
     finally:
         w.close()
